@@ -418,6 +418,98 @@ pub fn grammar_archive(r: &mut Rng) -> Vec<u8> {
     raw_archive(number, &cs)
 }
 
+/// C07 (field sweep): every structured payload the readers parse — fPRM, xATR, fSIZ, cTIM/mTIM/aTIM, FHED, SHED,
+/// PHSF — taken from a valid instance and damaged systematically: truncated at every length, extended by 1..3
+/// bytes, and every byte that belongs to a length prefix set to each of 0..=len+2, 0x7f, 0x80, 0xff; each damaged
+/// payload sits in an otherwise well-formed entry, once at the top level and once inside a plain solid stream.
+pub fn field_sweep_archives() -> Vec<Vec<u8>> {
+    fn variants(valid: &[u8], len_positions: &[usize]) -> Vec<Vec<u8>> {
+        let mut out: Vec<Vec<u8>> = (0..=valid.len()).map(|k| valid[..k].to_vec()).collect();
+        for extra in 1..=3usize {
+            let mut v = valid.to_vec();
+            v.extend(std::iter::repeat(0x41).take(extra));
+            out.push(v);
+        }
+        for &p in len_positions {
+            let mut vals: Vec<u8> = (0..=(valid.len() as u8).saturating_add(2)).collect();
+            vals.extend_from_slice(&[0x7f, 0x80, 0xff]);
+            for x in vals {
+                if x != valid[p] {
+                    let mut v = valid.to_vec();
+                    v[p] = x;
+                    out.push(v.clone());
+                    // the same damage on a record cut short behind the damaged prefix: the declared length
+                    // fits the bytes that are there, the fixed-width field behind it does not
+                    for cut in [p + 1 + x as usize, p + 1 + x as usize + 3, p + 1 + x as usize + 7] {
+                        if cut < v.len() {
+                            out.push(v[..cut].to_vec());
+                        }
+                    }
+                }
+            }
+        }
+        out
+    }
+    let mut prm = 1000u64.to_be_bytes().to_vec();
+    prm.push(4); prm.extend_from_slice(b"user");
+    prm.extend_from_slice(&100u64.to_be_bytes());
+    prm.push(3); prm.extend_from_slice(b"grp");
+    prm.extend_from_slice(&0o644u16.to_be_bytes());
+    let mut xat = 6u32.to_be_bytes().to_vec();
+    xat.extend_from_slice(b"user.k");
+    xat.extend_from_slice(&3u32.to_be_bytes());
+    xat.extend_from_slice(b"val");
+    let fhed: Vec<u8> = vec![0, 0, 0, 0, 0, 0, b'd', b'/', b'f'];
+    let targets: Vec<(&[u8; 4], Vec<u8>, Vec<usize>)> = vec![
+        (b"fPRM", prm, vec![8, 21]),
+        (b"xATR", xat, vec![0, 1, 2, 3, 10, 11, 12, 13]),
+        (b"fSIZ", vec![0, 0, 1, 2, 3, 4, 5, 6, 7, 8, 9, 10, 11, 12, 13, 14], vec![]),
+        (b"cTIM", 1_600_000_000u64.to_be_bytes().to_vec(), vec![]),
+        (b"mTIM", 1_600_000_001u64.to_be_bytes().to_vec(), vec![]),
+        (b"aTIM", 1_600_000_002u64.to_be_bytes().to_vec(), vec![]),
+        (b"PHSF", b"$pbkdf2-sha256$i=1,l=32$c2FsdHNhbHRzYWx0".to_vec(), vec![]),
+    ];
+    let mut out = Vec::new();
+    for (ty, valid, lens) in &targets {
+        for d in variants(valid, lens) {
+            let entry: Vec<(Vec<u8>, Vec<u8>)> = vec![
+                (b"FHED".to_vec(), fhed.clone()),
+                (ty.to_vec(), d.clone()),
+                (b"FDAT".to_vec(), b"data".to_vec()),
+                (b"FEND".to_vec(), vec![]),
+            ];
+            let mut top = entry.clone();
+            top.push((b"AEND".to_vec(), vec![]));
+            out.push(raw_archive(0, &top));
+            let mut inner = Vec::new();
+            for (t, x) in &entry {
+                inner.extend(raw_chunk(t, x));
+            }
+            out.push(raw_archive(0, &[
+                (b"SHED".to_vec(), vec![0, 0, 0, 0, 0]),
+                (b"SDAT".to_vec(), inner),
+                (b"SEND".to_vec(), vec![]),
+                (b"AEND".to_vec(), vec![]),
+            ]));
+        }
+    }
+    // the two entry headers themselves
+    for d in variants(&fhed, &[]) {
+        out.push(raw_archive(0, &[(b"FHED".to_vec(), d), (b"FDAT".to_vec(), b"data".to_vec()), (b"FEND".to_vec(), vec![]), (b"AEND".to_vec(), vec![])]));
+    }
+    for b in 0..=7u8 {
+        for pos in 0..6usize {
+            let mut d = fhed.clone();
+            d[pos] = b;
+            out.push(raw_archive(0, &[(b"FHED".to_vec(), d), (b"FDAT".to_vec(), b"data".to_vec()), (b"FEND".to_vec(), vec![]), (b"AEND".to_vec(), vec![])]));
+        }
+    }
+    for d in variants(&[0, 0, 0, 0, 0], &[]) {
+        out.push(raw_archive(0, &[(b"SHED".to_vec(), d), (b"SDAT".to_vec(), vec![]), (b"SEND".to_vec(), vec![]), (b"AEND".to_vec(), vec![])]));
+    }
+    out
+}
+
 /// a chunk type the library does not know: four ASCII letters in any case pattern (all sixteen
 /// combinations of the critical / private / reserved / safe-to-copy bits)
 pub fn unknown_type(r: &mut Rng) -> Vec<u8> {
